@@ -269,6 +269,12 @@ def c03(tier):
                     what='lemma: for every row r and byte x, _XOR_TABLE[r][x] == r ^ x (one z3 query per row on the ITE '
                          'encoding of the real table); rows where it fails are encoded exactly, so a wrong entry stays visible',
                     bad_rows=bad, samples=['row r: forall x. ITE(_XOR_TABLE[r])[x] == r xor x'])
+    # a frame that the library hands to the socket in several pieces must still arrive as ONE frame when another thread writes meanwhile
+    specs.append(sched_spec('big-frame-vs-pong', ['C03', 'C11'], [['send_big'], ['pong']], 1,
+                            'deterministic scheduler of C11/C12: thread 1 sends ONE 70 000-byte binary message, thread 2 writes an automatic Pong at any '
+                            'statement boundary (also between the pieces of a split write): the wire must decode as whole frames, each unmasking to what its caller passed'))
+    specs.append(sched_spec('big-frame-vs-sender', ['C03', 'C11'], [['send_big'], ['send_text']], 1,
+                            'the same with an application send_text on the second thread'))
     from checks.common import lomond
     lomond()
     return run_property('C03', tier, specs, 'model_checking', 'client frames valid & round-trip',
